@@ -347,7 +347,13 @@ def counts(rep):
     okst = False
     if isinstance(st, ast.Name):
         raises = [n for n in walk_local(sm.node) if isinstance(n, ast.Assign) and norm(n.targets[0]) == st.id and is_const(n.value, True)]
-        okst = any(any(isinstance(x, ast.Break) for x in (pm.get(n).body if isinstance(pm.get(n), ast.If) else [])) for n in raises)
+        def _cut(n):
+            # raised under the stop test, and the enumeration is left right after it
+            under = any(s_ and "_should_stop" in norm(t) for t, s_ in guards_of(pm, n, sm.node))
+            owner = pm.get(n)
+            sibs = next((getattr(owner, f_) for f_ in ("body", "orelse", "finalbody") if isinstance(getattr(owner, f_, None), list) and any(x is n for x in getattr(owner, f_))), [])
+            return under and any(isinstance(x, ast.Break) for x in sibs)
+        okst = any(_cut(n) for n in raises)
     rep.ob("O18.5", "SHAPE", sm, cname is not None and bool(okorb) and okst, {k: norm(v) for k, v in kv.items() if k in ("automorphism_count", "orbits", "stopped_early")},
            "the summary reports the count, the orbits and whether enumeration was cut")
     co = rep.f(AU, "CRNAutomorphism._compute_orbits_from_mappings")
